@@ -134,6 +134,34 @@ def check(P: Project, R: Report) -> None:
     la.parents = A.exception_parents(P)
     R.ob("R3", "a bad line is dropped alone", not lo.exc and not lo.brk and not lo.ret, f"{rel}:{line_loop.lineno}", f"exits of the per-line body: exc {len(lo.exc)} break {len(lo.brk)} return {len(lo.ret)}")
 
+    # batch lines: every member is handled inside its own try covering Exception (a bad member is dropped alone)
+    for g in P.methods(_stdio.client(P)).values():
+        params = [p for p in g.positional_params() if p != "self"]
+        for l in walk_local(g.node):
+            if isinstance(l, ast.For) and params and ast.unparse(l.iter) == params[0] and any(isinstance(c, ast.Call) and call_name(c) == "parse_message" for c in walk_local(l)):
+                R.fn(g.fq)
+                # json.dumps(<member>) in the handler's log line re-encodes a value that came out of the JSON decoder: total
+                item_dump = f"json.dumps({ast.unparse(l.target)})"
+                base_pred = pred
+
+                def member_pred(node, st, an, base_pred=base_pred, item_dump=item_dump):
+                    if any(isinstance(c, ast.Call) and ast.unparse(c) == item_dump for c in walk_local(node)):
+                        others = [c for c in walk_local(node) if isinstance(c, ast.Call) and ast.unparse(c) != item_dump and not ast.unparse(c.func).startswith(("logger.", "logging."))]
+                        if not others:
+                            return set()
+                    return base_pred(node, st, an)
+
+                ba, bo = run_paths(ast.Module(body=l.body, type_ignores=[]), fallible_pred=member_pred)
+                ba.parents = A.exception_parents(P)
+                R.ob("R3", "a bad batch member is dropped alone", not bo.exc and not bo.brk and not bo.ret, f"{g.module.rel}:{l.lineno}",
+                     f"exits of the per-member body: exc {sorted({(t, getattr(n, 'lineno', 0)) for _s, t, n in bo.exc})[:3]} break {len(bo.brk)} return {len(bo.ret)} — the first invalid member ends the batch, later members are lost")
+        # a try that wraps the whole member loop turns one bad member into "rest of the batch lost"
+        for t in walk_local(g.node):
+            if isinstance(t, ast.Try):
+                for st_ in t.body:
+                    if isinstance(st_, ast.For) and params and ast.unparse(st_.iter) == params[0] and not any(isinstance(x, ast.Try) for x in st_.body):
+                        R.ob("R3", "the batch member loop is not wrapped by a single try", False, f"{g.module.rel}:{t.lineno}", "one handler around the whole loop: the first invalid member aborts the remaining ones")
+
     # ------------------------------------------------------------------ R4
     rt = _stdio.router(P)
     R.fn(rt.fq)
